@@ -315,7 +315,7 @@ func (x *runner) judgeLoad(sp Spec, kind string, res *loadResult, must map[uint6
 		if !bytes.Equal(got.Bytes, it.Bytes) {
 			wrong = append(wrong, id)
 		}
-		if kind == "stores" && (got.LW != it.LW || got.RW != it.RW) {
+		if kind == "stores" && (!weightEq(got.LW, it.LW) || !weightEq(got.RW, it.RW)) {
 			wrongW = append(wrongW, id)
 		}
 	}
@@ -370,6 +370,9 @@ func (x *runner) judgeLoad(sp Spec, kind string, res *loadResult, must map[uint6
 	}
 	return undelivered
 }
+
+// weightEq: numerically equal, or both NaN (compared as numbers, never as strings).
+func weightEq(a, b float64) bool { return a == b || (a != a && b != b) }
 
 func idsOf(m map[uint64]item) []uint64 {
 	out := make([]uint64, 0, len(m))
@@ -577,10 +580,18 @@ func (x *runner) runStores(sp Spec) {
 	must := map[uint64]item{}
 	weights := map[uint64][2]float64{}
 	big := sp.Keys == "large"
+	prevStore := map[uint64]*metapb.Store{}
+	oneField := int(sp.Seed & 0xff)
 	for _, o := range ops {
 		switch o.Kind {
 		case 'S':
 			s := genStore(rng, o.ID, o.Ver, big && rng.Intn(4) == 0)
+			if prev := prevStore[o.ID]; prev != nil && sp.Keys == "one-field" {
+				oneField++
+				s = mutateStore(rng, prev, oneField) // differs from the stored record in exactly one field
+				r.Count("ops_overwrite_differing_in_one_field", 1)
+			}
+			prevStore[o.ID] = s
 			if err := b.st.SaveStore(s); err != nil {
 				r.Inconclusive("SaveStore: %v", err)
 				return
@@ -590,6 +601,10 @@ func (x *runner) runStores(sp Spec) {
 			r.Count("ops_save_store", 1)
 		case 'W':
 			lw, rw := genWeight(rng), genWeight(rng)
+			if sp.Keys == "edge-weights" {
+				lw, rw = edgeWeights[rng.Intn(len(edgeWeights))], edgeWeights[rng.Intn(len(edgeWeights))]
+				r.Count("ops_save_edge_weight", 1)
+			}
 			if err := b.st.SaveStoreWeight(o.ID, lw, rw); err != nil {
 				r.Inconclusive("SaveStoreWeight: %v", err)
 				return
@@ -635,6 +650,8 @@ func (x *runner) regionHistory(rng *rand.Rand, b *backend, sp Spec) (must map[ui
 	must, may = map[uint64]item{}, map[uint64]bool{}
 	dirty := map[uint64]bool{}
 	batching := b.rs != nil
+	prevRegion := map[uint64]*metapb.Region{}
+	oneField := int(sp.Seed & 0xff)
 	// position in id order decides the key size for the heavy-tail class
 	rank := map[uint64]int{}
 	for i, id := range sortedIDs(append(append([]uint64(nil), live...), dead...)) {
@@ -654,6 +671,12 @@ func (x *runner) regionHistory(rng *rand.Rand, b *backend, sp Spec) (must map[ui
 		switch o.Kind {
 		case 'S':
 			reg := genRegion(rng, o.ID, o.Ver, sp.Keys, rank[o.ID], total)
+			if prev := prevRegion[o.ID]; prev != nil && sp.Keys == "one-field" {
+				oneField++
+				reg = mutateRegion(rng, prev, oneField) // differs from the stored record in exactly one field
+				r.Count("ops_overwrite_differing_in_one_field", 1)
+			}
+			prevRegion[o.ID] = reg
 			if err := b.st.SaveRegion(reg); err != nil {
 				r.Inconclusive("SaveRegion: %v", err)
 				return nil, nil, false
@@ -1128,7 +1151,17 @@ func (x *runner) runConcurrent(sp Spec) {
 	}
 	plans := make([]plan, g)
 	must := map[uint64]item{}
+	shared := map[uint64][][]byte{} // ids written by every writer: the survivor is the last version of one of them
 	for i, id := range ids {
+		if i%5 == 4 {
+			for w := 0; w < g; w++ {
+				reg := genRegion(rng, id, w, "small", 0, 1)
+				plans[w].regs = append(plans[w].regs, reg)
+				bs, _ := reg.Marshal()
+				shared[id] = append(shared[id], bs)
+			}
+			continue
+		}
 		w := i % g
 		nv := 1 + rng.Intn(2)
 		for v := 0; v < nv; v++ {
@@ -1178,11 +1211,25 @@ func (x *runner) runConcurrent(sp Spec) {
 			return
 		}
 	}
-	r.Count("ops_save_region", int64(len(ids)))
+	r.Count("ops_save_region", int64(len(ids)+len(shared)*(g-1)))
 	r.Count("concurrent_writer_goroutines", int64(g))
 	if !x.finishRS(b, sp) {
 		return
 	}
-	res := x.loadRegions(b, "LoadRegions", len(must), nil)
-	x.judgeLoad(sp, "regions", res, must, nil, false, map[string]interface{}{"writers": g})
+	res := x.loadRegions(b, "LoadRegions", len(must)+len(shared), nil)
+	may := map[uint64]bool{}
+	for id := range shared {
+		may[id] = true
+	}
+	x.judgeLoad(sp, "regions", res, must, may, false, map[string]interface{}{"writers": g})
+	if res.Err == nil && res.Loop == nil && res.PdPanic == "" {
+		for id, vs := range shared {
+			if res.Count[id] != 1 || !inVersions(vs, res.First[id].Bytes) {
+				r.Violation("concurrent-savers-of-one-region:survivor-is-no-writers-last-version", fmt.Sprintf("region %d was saved by %d goroutines at once (plus a flusher); after Flush/Close it is delivered %d time(s) with a content that is %s", id, g, res.Count[id], map[bool]string{true: "a writer's version", false: "none of the writers' versions"}[inVersions(vs, res.First[id].Bytes)]),
+					map[string]interface{}{"spec": sp, "writers": g, "id": id})
+				break
+			}
+		}
+		r.Count("concurrent_regions_saved_by_every_writer", int64(len(shared)))
+	}
 }
